@@ -9,6 +9,7 @@ inductive Res (α : Type) where
   | ok (a : α)
   | panic
   | diverge
+  | ub          -- an unchecked access outside its documented precondition (undefined behaviour)
 deriving Repr, DecidableEq
 
 namespace Res
@@ -18,11 +19,13 @@ variable {α β : Type}
   | ok a, f => f a
   | panic, _ => panic
   | diverge, _ => diverge
+  | ub, _ => ub
 
 @[inline] def map (f : α → β) : Res α → Res β
   | ok a => ok (f a)
   | panic => panic
   | diverge => diverge
+  | ub => ub
 
 def isOk : Res α → Bool
   | ok _ => true
@@ -35,6 +38,7 @@ def ofOption : Option α → Res α
 @[simp] theorem bind_ok (a : α) (f : α → Res β) : (ok a).bind f = f a := rfl
 @[simp] theorem bind_panic (f : α → Res β) : (panic : Res α).bind f = panic := rfl
 @[simp] theorem bind_diverge (f : α → Res β) : (diverge : Res α).bind f = diverge := rfl
+@[simp] theorem bind_ub (f : α → Res β) : (ub : Res α).bind f = ub := rfl
 @[simp] theorem map_ok (f : α → β) (a : α) : (ok a).map f = ok (f a) := rfl
 
 end Res
